@@ -220,7 +220,7 @@ func (d *driver) rootDigests() map[string]any {
 		}
 	}
 	return map[string]any{"outside": digest(filepath.Join(r, "outside")), "static": digest(filepath.Join(r, "static")), "data": digest(filepath.Join(r, "data")),
-		"recordings": digest(filepath.Join(r, "recordings")), "groups": digest(filepath.Join(r, "groups")), "top": strings.Join(top, ",")}
+		"recordings": digest(filepath.Join(r, "recordings")), "groups": digest(filepath.Join(r, "groups")), "top": strings.Join(top, ","), "reclist": listing(filepath.Join(r, "recordings"))}
 }
 
 // a request written byte for byte (no client-side path cleaning or escaping)
